@@ -51,6 +51,10 @@ func (i *instruction) String(g *lookup) string {
 	// 	p = append(p, "$"+fmt.Sprint(i.A), fmt.Sprint(i.B))
 	case codeSetMethod:
 		p = append(p, g.Key(int(i.A)))
+	case codeCopy:
+		if i.C > 0 { // the count is pushed
+			p = append(p, fmt.Sprint(i.C))
+		}
 	case codeFastCall:
 		p = append(p, g.Key(int(i.A)), fmt.Sprint(i.B), fmt.Sprint(i.C))
 	case codeNewSlice:
@@ -603,7 +607,11 @@ func (c *compiler) compile(tok *token) []instruction {
 			if len(args) > 0 && args[len(args)-1].Symbol == "..." {
 				ellipsis = 1
 			}
-			res = append(res, instruction{Code: code, A: reg(len(args)), B: reg(ellipsis)})
+			ins := instruction{Code: code, A: reg(len(args)), B: reg(ellipsis)}
+			if code == codeCopy {
+				ins.C = reg(tok.Tokens[callReturns].Int()) // n := copy(a, b): the number of elements copied is wanted
+			}
+			res = append(res, ins)
 		} else {
 			fnc := c.compile(tok.Tokens[callName])
 			if tok.Tokens[callName].Symbol == "(name)" && fnc[0].Code == codeGlobalGet { // a local's slot number is not a global index
